@@ -13,6 +13,7 @@ import struct
 from hypothesis import strategies as st
 
 from engine import ecctx, pcctx
+from engine import pcctx_g as G
 from engine.core import Target, Violation, Unsupported
 from engine.gen import ints
 from engine.ref import ec as rec
@@ -36,6 +37,11 @@ RULE = ("elements are built by the REFERENCE arithmetic from Hypothesis draws. G
         "of 0..12 points with repeated points / identities / P = Q / aliasing for the simultaneous forms; oracle = "
         "reference [k]P, sum k_i P_i, a^k, a^b c^d, a^(p^i). non-trivial: a non-member presented to a predicate, or "
         "a multiplication / exponentiation with a scalar outside [0, r) or with an empty / identity-containing list. "
+        "thorough tier: the same generators and oracles (targets *-k) on the parameter sets of the other embedding "
+        "degrees and field sizes (k = 8 GMT8_P544; k = 16 K16_P330 AFG16_P510 FM16_P765 AFG16_P766; k = 18 K18_P354 "
+        "K18_P508 K18_P638 FM18_P768; k = 24 B24_P315 B24_P317 B24_P509; k = 48 B48_P575; k = 12 at 377 / 382 / 455 / 638 "
+        "bits), with Phi_k(p), the easy part (p^(k/2) - 1)[(p^(k/6) + 1)], the subfield chain of the tower and the "
+        "fpN_test_cyc / fpN_exp_cyc* twins of the degree in place of their k = 12 forms. "
         "distinct = distinct (target, cfg, case) hashes")
 ASSUMPTIONS = ["group parameters (generators, r, cofactors, tower non-residues, twist) are read from the library and "
                "sanity-checked by the reference ([r]G = O, generator on curve, g^r = 1); C18 validates them in depth",
@@ -45,8 +51,10 @@ ASSUMPTIONS = ["group parameters (generators, r, cofactors, tower non-residues, 
                "multiplication inputs are affine (as in C03); predicates are also given projective representations in "
                "the build's coordinate system, because the library's own additions produce them",
                "per-job pools of expensive GT elements (cyclotomic, small order) are derived deterministically from the "
-               "job seed recorded in the case, so a replay rebuilds exactly the same element"]
-BUDGET_S = {"quick": 230, "thorough": 1700}
+               "job seed recorded in the case, so a replay rebuilds exactly the same element",
+               "sweep (k != 12): one parameter set per build configuration (the one pc_param_set_any() installs); "
+               "SG54_P569 is not covered (no pairing layer at 569 bits: g2_t / gt_t are the k = 12 types there)"]
+BUDGET_S = {"quick": 230, "thorough": 1800}
 JOB_SIZE = {"quick": 110, "thorough": 250}
 OPTIONAL_CFGS = ["p381-qnres", "pf-383", "pf-446"]
 
@@ -118,10 +126,28 @@ def scalars(r, maxbits=1024):
 
 
 def my_ctx(env, cfg):
-    cs = pcctx.discover(env, cfg)["ctxs"]
-    if not cs:
-        raise Unsupported()
-    return cs[env.job_seed % len(cs)]
+    """per job one parameter set: engine.pcctx (k = 12) or engine.pcctx_k (k = 8, 16, 18, 24, 48) behind engine.pcctx_g"""
+    return G.job_ctx(env, cfg)
+
+
+def phi_k(p, k):
+    """Phi_k(p) for the embedding degrees the library implements: k = 8, 16 (power of two: p^(k/2) + 1),
+    k = 12, 18, 24, 48 (k = 2^a 3^b, a, b >= 1: p^(k/3) - p^(k/6) + 1)"""
+    if k in (8, 16):
+        return p ** (k // 2) + 1
+    if k in (12, 18, 24, 48):
+        return p ** (k // 3) - p ** (k // 6) + 1
+    raise Unsupported()
+
+
+def tower_chain(x):
+    """construction chain of the target field from the first extension of Fp to the top (generic Ext objects)"""
+    F = x.T[x.kemb]
+    out = []
+    while isinstance(F, rext.Ext):
+        out.append(F)
+        F = F.K
+    return out[::-1]
 
 
 def chk(c, what):
@@ -143,14 +169,17 @@ def extras(x):
     if e is None:
         e = Extras()
         p = x.F.p
-        e.phi = p ** 4 - p ** 2 + 1
+        e.phi = phi_k(p, x.kemb)
         if e.phi % x.r:
-            raise Violation("r does not divide Phi12(p): not an embedding-degree-12 parameter set", cid=x.cid)
+            raise Violation("r does not divide Phi_%d(p): not an embedding-degree-%d parameter set" % (x.kemb, x.kemb),
+                            cid=x.cid)
         e.hT = e.phi // x.r
+        e.chain = tower_chain(x)
+        e.d1 = e.chain[0].deg                                # degree of the first extension: 2, or 3 for k = 18
         e.q = {"g1": sorted(small_factors(x.base.h).items()), "g2": sorted(small_factors(x.h2).items())}
         e.qT = sorted(q for q in small_factors(e.hT) if q != x.r)
         e.qF1 = sorted(q for q in small_factors(p - 1) if q != x.r)[:8]
-        e.qF2 = sorted(q for q in small_factors(p + 1) if q != x.r)[:8]
+        e.qF2 = sorted(q for q in small_factors(p + 1 if e.d1 == 2 else p * p + p + 1) if q != x.r)[:8]
         e.inf = None
         e.memo = collections.OrderedDict()
         e.pools = {}
@@ -169,19 +198,19 @@ class Grp:
             self.E, self.K, self.G, self.h = b.E, b.K, b.G, b.h
             self.slot, self.vslot = "EP", "EPV"
         else:
-            self.E, self.K, self.G, self.h = x.E2c, x.F2, x.G2, x.h2
+            self.E, self.K, self.G, self.h = x.E2c, x.FK, x.G2, x.h2
             self.slot, self.vslot = "EP2", "EP2V"
         self.n = self.h * self.r
         self.proj = {b.BASIC: "basic", b.PROJC: "projc", b.JACOB: "jacob"}[b.EP_ADD]
 
     def fe(self, v):
-        return v % self.p if self.name == "g1" else (v[0] % self.p, v[1] % self.p)
+        return v % self.p if self.name == "g1" else G.zK(self.x, v)
 
     def mulG(self, m):
         m %= self.r
         if m == 0:
             return None
-        return ecctx.small_multiple(self.x.base, m) if self.name == "g1" else pcctx.small_multiple2(self.x, m)
+        return ecctx.small_multiple(self.x.base, m) if self.name == "g1" else G.small_multiple2(self.x, m)
 
     def enc(self, P, rep=None):
         rep = rep or {"kind": "basic", "z": 1, "inf": 0}
@@ -189,8 +218,7 @@ class Grp:
         if self.name == "g1":
             return ecctx.enc_point(self.x.base, P, kind, rep["z"] if isinstance(rep["z"], int) else rep["z"][0],
                                    rep.get("inf", 0))
-        z = rep["z"] if not isinstance(rep["z"], int) else (rep["z"], 0)
-        return pcctx.enc_point2(self.x, P, kind, (z[0] % self.p, z[1] % self.p), rep.get("inf", 0))
+        return G.enc_g2(self.x, P, kind, rep["z"], rep.get("inf", 0))
 
     def new(self, p, P, rep=None):
         return p.new(self.slot, self.enc(P, rep))
@@ -199,17 +227,17 @@ class Grp:
         n = len(pts)
         if self.name == "g1":
             return p.new("EPV", struct.pack("<II", n, n) + b"".join(self.enc(P) for P in pts))
-        return p.new("EP2V", bytes([2]) + struct.pack("<II", n, n) + b"".join(self.enc(P)[1:] for P in pts))
+        return p.new("EP2V", G.g2_vec(self.x, [self.enc(P) for P in pts]))
 
     def table(self, p, n):
         if self.name == "g1":
             return p.new("EPV", struct.pack("<II", n, 0))
-        return p.new("EP2V", bytes([2]) + struct.pack("<II", n, 0))
+        return p.new("EP2V", G.g2_table(self.x, n))
 
     def dec(self, blob, what):
         if self.name == "g1":
             return ecctx.dec_point(self.x.base, blob, what)[0]
-        return pcctx.dec_point2(self.x, blob, what)[0]
+        return G.dec_g2(self.x, blob, what)[0]
 
 
 def grp(x, name):
@@ -309,7 +337,7 @@ def fe_strat(g):
     u = ints.uniform(0, g.p - 1)
     if g.name == "g1":
         return u
-    return st.tuples(u, st.one_of(st.just(0), u, u)).map(list)
+    return st.tuples(u, *[st.one_of(st.just(0), u, u) for _ in range(g.x.K - 1)]).map(list)
 
 
 def rep_strat(g):
@@ -320,7 +348,7 @@ def rep_strat(g):
         kind = draw(st.sampled_from(["basic", "basic", "proj"]))
         z = 1
         if kind != "basic":
-            z = draw(u) if g.name == "g1" else [draw(u), draw(st.one_of(st.just(0), u))]
+            z = draw(u) if g.name == "g1" else [draw(u)] + [draw(st.one_of(st.just(0), u)) for _ in range(g.x.K - 1)]
         return {"kind": kind, "z": z, "inf": draw(st.integers(0, 1))}
     return s()
 
@@ -399,7 +427,7 @@ def classify_point(g, P):
 
 def run_valid_point(gname):
     def run(env, cfg, case):
-        x = pcctx.ctx_for(env, cfg, case["cid"])
+        x = G.ctx_for(env, cfg, case["cid"])
         g = grp(x, gname)
         spec, rep = case["P"], case["rep"]
         P = resolve_point(g, spec)
@@ -413,7 +441,7 @@ def run_valid_point(gname):
             p.call(fn, s_)
             return s_
         for pz in (case["poison"], case["poison"] ^ 0xFF):
-            res, s_ = pcctx.run(env, cfg, x, build, pz)
+            res, s_ = G.run(env, cfg, x, build, pz)
             c = res.calls[0]
             chk(c, what + " on class " + spec["k"])
             if s_ in c.changed:
@@ -440,17 +468,26 @@ def conj12(F12, a):
 
 
 def easy_part(x, f):
-    F12 = x.F12
-    p = x.F.p
-    g = F12.mul(conj12(F12, f), F12.inv(f))            # f^(p^6 - 1)
-    return F12.mul(F12.pow(g, p * p), g)               # ^(p^2 + 1)
+    k = getattr(x, "kemb", 12)
+    if k == 12:
+        F12 = x.F12
+        p = x.F.p
+        g = F12.mul(conj12(F12, f), F12.inv(f))            # f^(p^6 - 1)
+        return F12.mul(F12.pow(g, p * p), g)               # ^(p^2 + 1)
+    # (p^k - 1) / Phi_k(p) = p^(k/2) - 1 for k = 8, 16 and (p^(k/2) - 1)(p^(k/6) + 1) for k = 18, 24, 48; the
+    # Frobenius powers are the reference ones (ext.Flat.frob: theta^(p^i) by exponentiation, never from constants)
+    FT = x.FT
+    g = FT.mul(FT.frob(f, k // 2), FT.inv(f))
+    if k % 6 == 0:
+        g = FT.mul(FT.frob(g, k // 6), g)
+    return g
 
 
 def gt_pool(x, seed):
     ex = extras(x)
     if seed in ex.pools:
         return ex.pools[seed]
-    F12 = x.F12
+    F12 = x.FT
     p = x.F.p
     one = F12.one
     g = x.gt_gen
@@ -460,7 +497,7 @@ def gt_pool(x, seed):
     pool.mem = [F12.pow(g, 1 + H(seed, "m%d" % i, x.r - 1)) for i in range(4)]
     pool.cyc = []
     for i in range(2):
-        f = F12.unflatten([H(seed, "c%d.%d" % (i, j), p) for j in range(12)])
+        f = F12.unflatten([H(seed, "c%d.%d" % (i, j), p) for j in range(x.kemb)])
         if F12.is_zero(f):
             f = one
         c = easy_part(x, f)
@@ -484,7 +521,9 @@ def gt_pool(x, seed):
 def sub_root(x, spec):
     """Root of unity of prime order q in Fp (q | p - 1) or Fp2 (q | p + 1), embedded in Fp12 (never cyclotomic
     unless 1: q is prime to Phi12(p) except for the listed exceptions, which the oracle decides anyway)."""
-    F12, F2 = x.F12, x.F2
+    ex = extras(x)
+    F2 = ex.chain[0]                       # first extension of Fp in the tower: Fp2, or Fp3 for the k = 18 towers
+    d1 = ex.d1
     p = x.F.p
     q = spec["q"]
     if spec["f"] == 1:
@@ -494,16 +533,17 @@ def sub_root(x, spec):
             if a != 1:
                 break
             base += 1
-        e2 = (a, 0)
+        e2 = F2.from_int(a)
     else:
-        b = (spec["b"] % p, (spec["b"] // p + 1) % p)
+        b = (spec["b"] % p, (spec["b"] // p + 1) % p) + (1,) * (d1 - 2)
         for _ in range(64):
-            e2 = F2.pow(b, (p * p - 1) // q) if not F2.is_zero(b) else F2.one
+            e2 = F2.pow(b, (p ** d1 - 1) // q) if not F2.is_zero(b) else F2.one
             if not F2.eq(e2, F2.one):
                 break
-            b = F2.add(b, (1, 1))
-    F6 = F12.K
-    return F12.embed(F6.embed(e2))
+            b = F2.add(b, (1,) * d1)
+    for F in ex.chain[1:]:
+        e2 = F.embed(e2)
+    return e2
 
 
 def resolve_gt(x, spec):
@@ -512,7 +552,7 @@ def resolve_gt(x, spec):
     key = "gt" + json.dumps(spec, sort_keys=True)
     if key in ex.memo:
         return ex.memo[key]
-    F12 = x.F12
+    F12 = x.FT
     k = spec["k"]
     pool = gt_pool(x, spec["pool"]) if "pool" in spec else None
 
@@ -538,7 +578,7 @@ def resolve_gt(x, spec):
         a = F12.neg(comb(pool.mem))
     elif k == "near-member":
         v = F12.flatten(comb(pool.mem))
-        v[spec["pos"] % 12] = (v[spec["pos"] % 12] + spec["d"]) % x.F.p
+        v[spec["pos"] % x.kemb] = (v[spec["pos"] % x.kemb] + spec["d"]) % x.F.p
         a = F12.unflatten(v)
     elif k == "root":
         a = sub_root(x, spec)
@@ -583,20 +623,22 @@ def gt_spec(x, draw, k, seed):
     if k == "gen":
         spec["e"] = draw(st.sampled_from([1, -1, 2, -2, 3, 5, 1 << 16]))
     if k == "near-member":
-        spec.update(pos=draw(st.integers(0, 11)), d=draw(st.sampled_from([1, p - 1, 2])))
+        spec.update(pos=draw(st.integers(0, x.kemb - 1)), d=draw(st.sampled_from([1, p - 1, 2])))
     if k == "random":
         shape = draw(st.integers(0, 4))
         u = ints.uniform(0, p - 1)
+        N = x.kemb
         if shape == 0:
-            v = [draw(st.sampled_from([0, 1, 2, p - 1])) for _ in range(12)]
+            v = [draw(st.sampled_from([0, 1, 2, p - 1])) for _ in range(N)]
         elif shape == 1:
-            # proper subfields: Fp, Fp2, Fp6 (flattened order: ((a00,a01),(a10..)..), w-part last)
-            n = draw(st.sampled_from([1, 2, 6]))
-            v = [draw(u) for _ in range(n)] + [0] * (12 - n)
+            # proper subfields: Fp and the lower levels of the tower (k = 12: Fp, Fp2, Fp6; the flattened order is
+            # depth first, so a subfield of degree n occupies the first n coefficients)
+            n = draw(st.sampled_from([1] + [F.deg for F in ex.chain[:-1]]))
+            v = [draw(u) for _ in range(n)] + [0] * (N - n)
         elif shape == 2:
-            v = [draw(st.one_of(st.just(0), u)) for _ in range(12)]
+            v = [draw(st.one_of(st.just(0), u)) for _ in range(N)]
         else:
-            v = [draw(u) for _ in range(12)]
+            v = [draw(u) for _ in range(N)]
         if v[:1] == [1] and not any(v[1:]):
             v[0] = 2
         spec["v"] = v
@@ -621,7 +663,7 @@ def gt_kinds(x):
 
 
 def gt_new(p, x, a):
-    return p.new("FPX", pcctx.enc_gt(x, a))
+    return p.new("FPX", G.enc_gt(x, a))
 
 
 def strat_valid_gt(env, cfg):
@@ -638,10 +680,11 @@ def strat_valid_gt(env, cfg):
 
 
 def run_valid_gt(env, cfg, case):
-    x = pcctx.ctx_for(env, cfg, case["cid"])
+    x = G.ctx_for(env, cfg, case["cid"])
+    G.gt_gen(env, cfg, x)
     ex = extras(x)
-    F12 = x.F12
-    spec, fn = case["A"], case["fn"]
+    F12 = x.FT
+    spec, fn = case["A"], G.opname(x, case["fn"])         # fp12_test_cyc -> fpN_test_cyc of the build's target field
     k = spec["k"]
     if k in ("small", "mem*small") and spec["q"] not in gt_pool(x, spec["pool"]).small:
         raise Unsupported()
@@ -657,16 +700,16 @@ def run_valid_gt(env, cfg, case):
         if k == "pairing":
             def build(p):
                 s1 = p.new("EP", ecctx.enc_point(x.base, P))
-                s2 = p.new("EP2", pcctx.enc_point2(x, Q))
+                s2 = p.new("EP2", G.enc_g2(x, Q))
                 sa = gt_new(p, x, F12.one)
                 p.call("pc_map", sa, s1, s2)
                 p.call(fn, sa)
                 p.dump(sa)
                 return sa
-            res, sa = pcctx.run(env, cfg, x, build, pz)
+            res, sa = G.run(env, cfg, x, build, pz)
             chk(res.calls[0], "pc_map")
             c = res.calls[1]
-            got_a = pcctx.dec_gt(x, res.dumps[sa], "pc_map")
+            got_a = G.dec_gt(x, res.dumps[sa], "pc_map")
             if a is not None and not F12.eq(a, got_a):
                 raise Violation("pc_map result depends on stale storage content")
             a = got_a
@@ -677,7 +720,7 @@ def run_valid_gt(env, cfg, case):
                 sa = gt_new(p, x, a)
                 p.call(fn, sa)
                 return sa
-            res, sa = pcctx.run(env, cfg, x, build, pz)
+            res, sa = G.run(env, cfg, x, build, pz)
             c = res.calls[0]
         try:
             chk(c, "%s on class %s" % (what, k))
@@ -701,7 +744,7 @@ def run_valid_gt(env, cfg, case):
             if fn == "gt_is_valid":
                 raise Violation("%s returned %d for a %s (class %s: unity=%s, a^r=1: %s, cyclotomic=%s)" % (
                     what, v, "member" if want else "NON-member", k, unity, killed, cyc), got=v, want=int(want), cls=k,
-                    unity=unity, killed=killed, cyclotomic=cyc, op=fn, zero=zero)
+                    unity=unity, killed=killed, cyclotomic=cyc, op=fn, zero=zero, kemb=x.kemb, cid=x.cid)
             raise Violation("%s returned %d for a %s element (class %s)" % (
                 what, v, "cyclotomic" if cyc else "non-cyclotomic", k), got=v, want=int(cyc), cls=k, op=fn, zero=zero)
     lab = ["op:" + fn, "cid:%d" % x.cid, "gt:class:%s" % k]
@@ -799,6 +842,28 @@ def scalar_labels(r, ks):
     return sorted(out)
 
 
+PHI = {8: 4, 12: 4, 16: 8, 18: 6, 24: 8, 48: 16}
+
+
+def frb_top(x):
+    """|u|^phi(k) for the one-set-per-build contexts (u = curve parameter): the bound below which a scalar has a
+    phi(k)-digit expansion in base |u|; None when r does not exceed it (BLS, KSS families, every k = 12 set)"""
+    par = getattr(x, "par", None)
+    if not par or x.kemb not in PHI:
+        return None
+    X = abs(par) ** PHI[x.kemb]
+    return X if x.r > X else None
+
+
+def frb_alternatives(x, ks):
+    """the exponent vectors a routine effectively uses when the base-|u| recoding drops what exceeds phi(k) digits
+    (diagnosis of a mismatch only; known finding C12-bn_rec_frb-top-digit)"""
+    X = frb_top(x)
+    if X is None or not any((k % x.r) >= X or (abs(k) % x.r) >= X for k in ks):
+        return []
+    return [[(k % x.r) % X for k in ks], [(-((abs(k) % x.r) % X) if k < 0 else (k % x.r) % X) for k in ks]]
+
+
 def chk_pt(g, blob, want, what, **kw):
     got = g.dec(blob, what)
     if got is not None and not g.E.on_curve(got):
@@ -809,7 +874,7 @@ def chk_pt(g, blob, want, what, **kw):
 
 def run_mul(gname):
     def run(env, cfg, case):
-        x = pcctx.ctx_for(env, cfg, case["cid"])
+        x = G.ctx_for(env, cfg, case["cid"])
         g = grp(x, gname)
         E, r = g.E, x.r
         op, ks, alias = case["op"], case["ks"], case["alias"]
@@ -822,7 +887,7 @@ def run_mul(gname):
             ex = extras(x)
             if ex.inf is None:
                 ex.inf = env.runner(cfg).info("info_pc")
-                pcctx.discover(env, cfg)["cur"] = None
+                G.forget_selection(env, cfg, x)
             tabsz = ex.inf[4 if gname == "g1" else 5]
         red = (lambda k: k % r) if member else (lambda k: k)
         if op == "mul_gen":
@@ -905,12 +970,25 @@ def run_mul(gname):
                 p.dump(so)
             return outs, ins
         for pz in (case["poison"], case["poison"] ^ 0xFF):
-            res, (outs, ins) = pcctx.run(env, cfg, x, build, pz, seed=case["seed"])
+            res, (outs, ins) = G.run(env, cfg, x, build, pz, seed=case["seed"])
             for c in res.calls:
                 chk(c, c.name + "[cid=%d]" % x.cid)
             for i, so in enumerate(outs):
-                chk_pt(g, res.dumps[so], wants[i], what + ("(k#%d)" % i if op == "fix" else ""), op=fn,
-                       ks=ks, n=len(pts))
+                try:
+                    chk_pt(g, res.dumps[so], wants[i], what + ("(k#%d)" % i if op == "fix" else ""), op=fn,
+                           ks=ks, n=len(pts))
+                except Violation as v:
+                    if gname == "g2" and member and "got" in v.details:
+                        kk = [ks[i]] if op == "fix" else ks
+                        pp = [pts[0]] if op == "fix" else pts
+                        for alt in frb_alternatives(x, kk):
+                            w = None
+                            for P, k in zip(pp, alt):
+                                w = E.add(w, E.mul(k, P))
+                            if E.eq(w, v.details["got"]):
+                                v.details["dropped_top_digit"] = True
+                    v.details.update(kemb=x.kemb, cid=x.cid)
+                    raise
             call = res.calls[-1]
             for c in (res.calls[1:] if op == "fix" else res.calls):
                 bad = [s_ for s_ in c.changed if s_ in ins]
@@ -990,14 +1068,16 @@ def strat_exp(env, cfg):
 def gt_elem(x, spec):
     inv = spec.get("inv")
     a = resolve_gt(x, {k: v for k, v in spec.items() if k != "inv"})
-    return x.F12.inv(a) if inv else a
+    return x.FT.inv(a) if inv else a
 
 
 def run_exp(env, cfg, case):
-    x = pcctx.ctx_for(env, cfg, case["cid"])
-    F12, r = x.F12, x.r
+    x = G.ctx_for(env, cfg, case["cid"])
+    G.gt_gen(env, cfg, x)
+    F12, r = x.FT, x.r
     op, ks, alias = case["op"], case["ks"], case["alias"]
-    if op.startswith("fp12_") and op not in env.runner(cfg).ops():
+    cop = G.opname(x, op)                      # fp12_exp_cyc* -> the twin routine of the build's target field
+    if op.startswith("fp12_") and cop not in env.runner(cfg).ops():
         raise Unsupported()
     a = x.gt_gen if op == "gt_exp_gen" else gt_elem(x, case["A"])
     c2 = gt_elem(x, case["C"]) if case["C"] else None
@@ -1006,7 +1086,7 @@ def run_exp(env, cfg, case):
     want = F12.pow(a, red(ks[0]))
     if c2 is not None:
         want = F12.mul(want, F12.pow(c2, ks[1] % r))
-    what = "%s[cid=%d]" % (op, x.cid)
+    what = "%s[cid=%d]" % (cop, x.cid)
 
     def build(p):
         so = gt_new(p, x, F12.one)
@@ -1015,7 +1095,7 @@ def run_exp(env, cfg, case):
             sa, sk = gt_new(p, x, a), p.bn(ks[0])
             if alias == 1:
                 so = sa
-            p.call(op, so, sa, sk)
+            p.call(cop, so, sa, sk)
             ins = [s_ for s_ in (sa, sk) if s_ != so]
         elif op == "gt_exp_dig":
             sa = gt_new(p, x, a)
@@ -1032,28 +1112,35 @@ def run_exp(env, cfg, case):
             sc_ = sa if (alias == 3 and case["C"] == case["A"]) else gt_new(p, x, c2)
             k0, k1 = p.bn(ks[0]), p.bn(ks[1])
             so = sa if alias == 1 else sc_ if alias == 2 else so
-            p.call(op, so, sa, k0, sc_, k1)
+            p.call(cop, so, sa, k0, sc_, k1)
             ins = [s_ for s_ in (sa, k0, sc_, k1) if s_ != so]
         p.dump(so)
         return so, ins
     for pz in (case["poison"], case["poison"] ^ 0xFF):
-        res, (so, ins) = pcctx.run(env, cfg, x, build, pz)
+        res, (so, ins) = G.run(env, cfg, x, build, pz)
         c = res.calls[0]
-        chk(c, what)
-        got = pcctx.dec_gt(x, res.dumps[so], what)
+        try:
+            chk(c, what)
+        except Violation as v:
+            v.details.update(op=op, kemb=x.kemb, p_bits=x.F.p.bit_length())
+            raise
+        got = G.dec_gt(x, res.dumps[so], what)
         if not F12.eq(got, want):
             signbug = False
             if op == "fp12_exp_cyc_sim" and (ks[0] < 0) != (ks[1] < 0):
                 alt = F12.mul(F12.pow(a, ks[0] % r), F12.pow(c2, (abs(ks[1]) * (-1 if ks[0] < 0 else 1)) % r))
                 signbug = F12.eq(got, alt)
-            raise Violation("%s: result is not the reference power" % what, op=op, ks=ks, A=case["A"]["k"],
-                            second_exponent_took_sign_of_first=signbug,
+            dropped = False
+            if member and c2 is None:
+                dropped = any(F12.eq(got, F12.pow(a, alt[0])) for alt in frb_alternatives(x, ks[:1]))
+            raise Violation("%s: result is not the reference power" % what, op=op, fn=cop, kemb=x.kemb, ks=ks, A=case["A"]["k"],
+                            second_exponent_took_sign_of_first=signbug, dropped_top_digit=dropped,
                             C=case["C"]["k"] if case["C"] else None,
                             same_base=bool(case["C"]) and {k: v for k, v in case["C"].items() if k != "inv"} == case["A"],
                             result_is_unity=F12.eq(got, F12.one))
         if [s_ for s_ in c.changed if s_ in ins]:
             raise Violation("%s modified its input" % what)
-    lab = ["op:" + op, "cid:%d" % x.cid, "gt:base:%s" % case["A"]["k"]] + ["gt:%s" % l for l in scalar_labels(r, ks)]
+    lab = ["op:" + cop, "cid:%d" % x.cid, "gt:base:%s" % case["A"]["k"]] + ["gt:%s" % l for l in scalar_labels(r, ks)]
     if alias and op != "gt_exp_gen":
         lab.append("gt:alias")
     if c2 is not None and F12.eq(a, c2):
@@ -1077,14 +1164,15 @@ def strat_ops(env, cfg):
             rel = draw(st.sampled_from(["rand", "same", "inv", "unity"]))
             B = member_spec(x, draw, seed) if rel == "rand" else dict(A) if rel == "same" else \
                 dict(A, inv=1) if rel == "inv" else {"k": "unity"}
-        return dict(cid=x.cid, op=op, A=A, B=B, i=draw(st.integers(0, 13)), alias=draw(st.sampled_from([0, 0, 1, 2, 3])),
+        return dict(cid=x.cid, op=op, A=A, B=B, i=draw(st.integers(0, x.kemb + 1)), alias=draw(st.sampled_from([0, 0, 1, 2, 3])),
                     poison=draw(st.integers(0, 255)))
     return s()
 
 
 def run_ops(env, cfg, case):
-    x = pcctx.ctx_for(env, cfg, case["cid"])
-    F12, r, p_ = x.F12, x.r, x.F.p
+    x = G.ctx_for(env, cfg, case["cid"])
+    G.gt_gen(env, cfg, x)
+    F12, r, p_ = x.FT, x.r, x.F.p
     op, alias = case["op"], case["alias"]
     a = gt_elem(x, case["A"])
     b = gt_elem(x, case["B"]) if case["B"] else None
@@ -1124,13 +1212,13 @@ def run_ops(env, cfg, case):
         pg.dump(so)
         return so, ins
     for pz in (case["poison"], case["poison"] ^ 0xFF):
-        res, (so, ins) = pcctx.run(env, cfg, x, build, pz)
+        res, (so, ins) = G.run(env, cfg, x, build, pz)
         c = res.calls[0]
         chk(c, what)
         if [s_ for s_ in c.changed if s_ in ins]:
             raise Violation("%s modified its input" % what)
         if want is not None:
-            got = pcctx.dec_gt(x, res.dumps[so], what)
+            got = G.dec_gt(x, res.dumps[so], what)
             if not F12.eq(got, want):
                 raise Violation("%s: wrong result" % what, op=op, i=case["i"])
         elif op == "gt_cmp":
@@ -1194,7 +1282,34 @@ def _cfgs():
 
 # Ordered by ascending cost per case: the driver starts jobs in declaration order, so when the wall-clock budget is hit
 # on a loaded machine the cheap targets are complete and only the tail of the most expensive one is cut.
-TARGETS = [
+# thorough sweep over the other parameter sets (engine/pcctx_g.py; the list is the one of props/c04.py): the same
+# strategies and run functions under their own target names, so that the k = 12 targets keep their evidence rows
+SWEEP12 = ["pf-377", "pf-382", "pf-455", "pf-638-q"]          # pf-383, pf-446 are part of the main thorough list
+# pf-315-jacob: B24_P315 with Jacobian coordinates, where the invalid-curve class 'iso' is effective against the G1
+# shortcuts (the doubling formulas do not involve b; the homogeneous complete formulas of the default build do)
+SWEEPK = ["pf-544", "pf-330", "pf-510", "pf-765-b", "pf-766-b", "pf-354", "pf-508", "pf-638", "pf-768", "pf-315", "pf-317",
+          "pf-509", "pf-315-jacob"]
+SWEEP48 = ["pf-575-q"]
+OPTIONAL_CFGS = OPTIONAL_CFGS + SWEEP12 + SWEEPK + SWEEP48
+
+
+def _sweep(name, strat, run, n12, nk, n48):
+    return [Target(name, strat, run, {"quick": [], "thorough": SWEEP48}, quick=1, thorough=n48, job_size={"quick": 6, "thorough": 6}),
+            Target(name, strat, run, {"quick": [], "thorough": SWEEPK}, quick=1, thorough=nk, job_size={"quick": 40, "thorough": 40}),
+            Target(name, strat, run, {"quick": [], "thorough": SWEEP12}, quick=1, thorough=n12, job_size={"quick": 100, "thorough": 100})]
+
+
+# per configuration; measured cost per case (one worker): G1 0.02 s, G2 0.1 - 0.8 s (7.6 s for the lifted points of the
+# twist over Fp8), GT 0.05 - 1.1 s (1 - 6 s for k = 48): about 7000 CPU-seconds in total (10250 measured with sizes 1.4x these), a quarter of the budget
+SWEEPS = _sweep("mul-g1-k", strat_mul("g1"), run_mul("g1"), 300, 200, 24) + \
+    _sweep("valid-g1-k", strat_valid_point("g1"), run_valid_point("g1"), 300, 250, 24) + \
+    _sweep("mul-g2-k", strat_mul("g2"), run_mul("g2"), 160, 90, 18) + \
+    _sweep("valid-g2-k", strat_valid_point("g2"), run_valid_point("g2"), 100, 70, 12) + \
+    _sweep("ops-gt-k", strat_ops, run_ops, 80, 50, 12) + \
+    _sweep("exp-gt-k", strat_exp, run_exp, 160, 120, 18) + \
+    _sweep("valid-gt-k", strat_valid_gt, run_valid_gt, 120, 90, 12)
+
+TARGETS = SWEEPS + [
     Target("mul-g1", strat_mul("g1"), run_mul("g1"), _cfgs(), quick=2200, thorough=16000),
     Target("valid-g1", strat_valid_point("g1"), run_valid_point("g1"), _cfgs(), quick=2600, thorough=20000),
     Target("mul-g2", strat_mul("g2"), run_mul("g2"), _cfgs(), quick=1100, thorough=8000),
@@ -1245,7 +1360,52 @@ def _kf_exp_cyc_sim_sign(case, v, entry):
         v.details.get("second_exponent_took_sign_of_first") is True
 
 
-KNOWN_PREDICATES = {"fp12_exp_cyc_sim_sign_of_second_exponent": _kf_exp_cyc_sim_sign,
+def _kf_frb_top_digit(case, v, entry):
+    """bn_rec_frb (base-|u| expansion of a scalar into phi(k) digits for the Frobenius-based multiplications in G2 and
+    GT) drops whatever exceeds phi(k) digits. Families with r > |u|^phi(k) (GMT8: r = u^4 + 1, AFG16 / FM16: u^8 + 1,
+    FM18: u^6 + u^3 + 1) get [k mod |u|^phi(k)]P for the scalars k in [|u|^phi(k), r): g2_mul(P, r - 1) = O,
+    gt_exp(a, r - 1) = 1. Matched only when the wrong result is exactly that value."""
+    d = v.details
+    return d.get("dropped_top_digit") is True and not d.get("crash") and not d.get("errored")
+
+
+def _kf_gt_exp_sec_frdim(case, v, entry):
+    """gt_exp_sec -> gt_exp_reg_sac uses q[1], q[2] of an array of ep_curve_frdim() elements as temporaries: stack
+    overflow for every exponent when frdim() < 3 (GMT8_P544: frdim() = 1). The entry is restricted to pf-544."""
+    d = v.details
+    return case.get("op") == "gt_exp_sec" and bool(d.get("crash")) and "stack-buffer-overflow" in (d.get("kind") or "") and \
+        any(f.startswith("gt_exp_reg_sac@") for f in d.get("frames") or [])
+
+
+def _all_zero(v):
+    if isinstance(v, (list, tuple)):
+        return all(_all_zero(t) for t in v)
+    return v == 0
+
+
+def _kf_cmp_origin(case, v, entry):
+    """epK_cmp(O, (0, 0)) = RLC_EQ (cross-multiplication with z = 0, no test for exactly one point at infinity): on the
+    curves y^2 = x^3 + ax (GMT8 and every k = 16 family) the 2-torsion point (0, 0) passes g1_is_valid / g2_is_valid,
+    whose shortcuts end in a comparison of [even]P = O with P. Matched only for exactly that point and verdict."""
+    d = v.details
+    return case.get("fn") is None and d.get("got") == 1 and d.get("want") == 0 and d.get("on_curve") is True and \
+        d.get("identity") is False and d.get("P") is not None and _all_zero(d.get("P"))
+
+
+def _kf_gt_exp_k8_long(case, v, entry):
+    """gt_exp / gt_exp_gen on GMT8_P544 hand the exponent unreduced to fp8_exp_cyc, whose NAF buffer holds
+    RLC_FP_BITS + 1 digits: exponents longer than the field size are refused with an error (every other degree reduces
+    modulo r first). Matched only for the clean error on such an exponent."""
+    d = v.details
+    return case.get("op") in ("gt_exp", "gt_exp_gen") and d.get("kemb") == 8 and d.get("errored") is True and \
+        not d.get("crash") and any(abs(k).bit_length() > d.get("p_bits", 1 << 30) for k in case.get("ks") or [])
+
+
+KNOWN_PREDICATES = {"bn_rec_frb_drops_top_digit": _kf_frb_top_digit,
+                    "gt_exp_k8_long_exponent_refused": _kf_gt_exp_k8_long,
+                    "epK_cmp_infinity_equals_origin": _kf_cmp_origin,
+                    "gt_exp_sec_stack_overflow_small_frdim": _kf_gt_exp_sec_frdim,
+                    "fp12_exp_cyc_sim_sign_of_second_exponent": _kf_exp_cyc_sim_sign,
                     "g2_mul_sim_dig_empty_list": _kf_g2_sim_dig_empty,
                     "gt_is_valid_raises_on_degenerate_compressed_form": _kf_gt_valid_raises,
                     "fp12_test_cyc_accepts_zero": _kf_test_cyc_zero}
